@@ -765,27 +765,63 @@ def quoted_sink_rule(crate, syn, prop, rule="C04.R4"):
     esc = r"utils::\w*escape\w*$"
     # central sanitisation of container tag/content (where the attributes are read)
     central = {}
+
+    def escapes(b, local, seen=None):
+        """is an escape routine among what the value is computed with: called, passed as a function (`.map(escape_string)`)
+        or called by a closure passed along (`.map(|t| escape_string(&t))`)"""
+        calls, _, consts = M.deep_slice(b, local)
+        if any(fn_matches(c, esc) for _, c in calls) or any(re.search(esc, ((c or {}).get("fn") or {}).get("path") or "") for c in consts):
+            return True
+        for _, c in calls:
+            for a in c["args"]:
+                la = op_local(a)
+                for o in (origins(b, la) if la is not None else []):
+                    cl = o["rv"].get("closure") if o["kind"] == "agg" else None
+                    for cb in crate.by_path.get(cl, []) if cl else []:
+                        if any(fn_matches(c2, esc) for _, c2 in cb.calls()):
+                            return True
+        return False
     for x in ("EnumAttr", "StructAttr"):
         got = set()
-        for b in crate.bodies:
-            if not re.search(r"%s::from_attrs$" % x, b.path):
+        for b0 in crate.bodies:
+            if not re.search(r"%s::from_attrs$" % x, b0.path) or b0.kind not in ("Fn", "AssocFn"):
                 continue
-            for blk, t in b.calls():
-                if b.is_cleanup(blk):
-                    continue
-                src = panics.operand_origin(b, t["args"][0]) if t["args"] else ""
-                m = re.search(r"%s\.(tag|content)$" % x, src)
-                if not m:
-                    continue
-                if fn_matches(t, esc):
-                    got.add(m.group(1))
-                elif fn_matches(t, r"Option::<T>::map$") and len(t["args"]) > 1:
-                    # `result.tag = result.tag.map(|tag| escape_string(&tag))`
-                    for o in origins(b, op_local(t["args"][1])) if op_local(t["args"][1]) is not None else []:
-                        cl = o["rv"].get("closure") if o["kind"] == "agg" else None
-                        for cb in crate.by_path.get(cl, []) if cl else []:
-                            if any(fn_matches(c2, esc) for _, c2 in cb.calls()):
-                                got.add(m.group(1))
+            b = crate.ibody(b0.path)
+            for fld in ("tag", "content"):
+                stored = []
+                for blk in range(b.n):
+                    if b.is_cleanup(blk):
+                        continue
+                    for st in b.stmts(blk):
+                        if st["k"] != "assign":
+                            continue
+                        if st["dst"]["p"] and st["dst"]["p"][-1] == "." + fld and x in (b.local_ty(st["dst"]["l"]) or ""):
+                            o = st["rv"].get("op") if st["rv"]["k"] in ("use", "cast") else None
+                            if o is not None and op_local(o) is not None:
+                                stored.append(op_local(o))
+                        if st["rv"]["k"] == "agg" and (st["rv"].get("adt") or "").endswith("::" + x) and fld in (st["rv"].get("fields") or []):
+                            o = st["rv"]["ops"][st["rv"]["fields"].index(fld)]
+                            if op_local(o) is not None:
+                                stored.append(op_local(o))
+                    tt = b.term(blk)
+                    if tt["k"] == "call" and tt["dst"]["p"] and tt["dst"]["p"][-1] == "." + fld and x in (b.local_ty(tt["dst"]["l"]) or ""):
+                        stored.append(("call", tt))
+                for sv in stored:
+                    if isinstance(sv, tuple):
+                        tt = sv[1]
+                        ok = fn_matches(tt, esc) or any(escapes(b, op_local(a)) for a in tt["args"] if op_local(a) is not None) or \
+                            any(re.search(esc, ((op_const(a) or {}).get("fn") or {}).get("path") or "") for a in tt["args"])
+                        for a in tt["args"]:
+                            la = op_local(a)
+                            for o in (origins(b, la) if la is not None else []):
+                                cl = o["rv"].get("closure") if o["kind"] == "agg" else None
+                                for cb in crate.by_path.get(cl, []) if cl else []:
+                                    if any(fn_matches(c2, esc) for _, c2 in cb.calls()):
+                                        ok = True
+                    else:
+                        ok = escapes(b, sv)
+                    if ok:
+                        got.add(fld)
         central[x] = got
         r.inst(attr=x, escaped_when_read=sorted(got))
     tag_ok = "tag" in central.get("EnumAttr", ()) and "tag" in central.get("StructAttr", ())
